@@ -90,7 +90,7 @@ def table_class(t):
     return "nz%d%s" % (nz, "".join("1" if x else "0" for x in t))
 
 
-def check_value(ctx, key, got, want, what, case):
+def check_value(ctx, key, got, want, what, case, rel=1e-10, abs_=1e-12):
     if got is None:
         got = NAN
     import numpy as np
@@ -100,7 +100,7 @@ def check_value(ctx, key, got, want, what, case):
     if got in (float("inf"), float("-inf")):
         ctx.violation("infinite-score|" + key, "%s returned %r (must be NaN when undefined)" % (what, got), case)
         return False
-    if not vutil.num_equal(got, want, 1e-10, 1e-12):
+    if not vutil.num_equal(got, want, rel, abs_):
         ctx.violation("formula|" + key, "%s = %r, definition gives %r" % (what, got, want), case)
         return False
     return True
@@ -188,6 +188,7 @@ def run_random(desc, ctx):
     import verif.util
     mets = {n: cls() for n, cls in cat_metrics().items()}
     rng = random.Random("C06-rand-%s-%s" % (desc["seed"], desc["k"]))
+    skewed_tables(desc, ctx, mets, random.Random("C06-skew-%s-%s" % (desc["seed"], desc["k"])))
     for _ in range(desc["n"]):
         b = rng.choice(BINS)
         n = rng.choice([20, 100, 1000, 10000])
@@ -231,6 +232,28 @@ def run_random(desc, ctx):
                             {"metric": name, "bin": b, "table": [a, bb, c, d]})
             except Exception as e:
                 ctx.violation("exception|%s|%s" % (name, type(e).__name__), repr(e), {"metric": name, "bin": b})
+
+
+def skewed_tables(desc, ctx, mets, rng):
+    """large samples with a nearly perfect / nearly always-alarming forecast: one or two cells of 10^5-10^6 cases next to cells of
+    a handful, so that rates sit within 1e-5 of 0 or 1 without being 0 or 1 (a formula is defined there like anywhere else)"""
+    for _ in range(max(4, desc["n"] // 4)):
+        small = [rng.choice([0, 1, 1, 2, 3, 7, 40]) for _ in range(4)]
+        tab = list(small)
+        for pos in rng.sample(range(4), rng.choice([1, 1, 2])):
+            tab[pos] = rng.choice([100000, 150000, 400000, 1000000, 2500000])
+        a, bb, c, d = tab
+        for name, m in mets.items():
+            want = refmetrics.categorical(name, a, bb, c, d)
+            ctx.case("%s|skewed-large-table" % name, True)
+            try:
+                got = m.compute_from_abcd(float(a), float(bb), float(c), float(d))
+                ctx.count("skewed_table_evals")
+                # (logarithms of rates next to 1 cancel: the last digits depend on the order of the operations)
+                check_value(ctx, name, got, want, "%s on the table %s" % (name, (a, bb, c, d)), {"metric": name, "table": [a, bb, c, d]},
+                            rel=1e-6, abs_=1e-9)
+            except Exception as e:
+                ctx.violation("exception|%s|%s" % (name, type(e).__name__), repr(e), {"metric": name, "table": [a, bb, c, d]})
 
 
 def run_same_arrays(desc, ctx):
